@@ -414,6 +414,7 @@ OPEN = ["float rounding of evo's evaluation: values agree with the exact definit
 
 def check(ctx):
     lean = core.lean_side(ctx.prop, ctx.tier)
+    cli.check_tables(ctx, "rpe")
     cases = list(gen_cases(ctx))
     evaluate(ctx, cases)
     core.shrink_all(ctx, shrink, evaluate)
